@@ -565,6 +565,12 @@ func c15AttrTables(d *dialectAPI, r *hx.Rand) []*schema.Table {
 		// an operator class with two parameters, and one with a single parameter
 		t2.AddIndexes(schema.NewIndex("i_opclass_params").AddAttrs(&postgres.IndexType{T: "BRIN"}).AddParts(&schema.IndexPart{C: c, Attrs: []schema.Attr{&postgres.IndexOpClass{Name: "int4_bloom_ops", Params: []struct{ N, V string }{{"n_distinct_per_range", "100"}, {"false_positive_rate", "0.05"}}}}}))
 		t2.AddIndexes(schema.NewIndex("i_opclass_param").AddAttrs(&postgres.IndexType{T: "GIST"}).AddParts(&schema.IndexPart{C: b, Attrs: []schema.Attr{&postgres.IndexOpClass{Name: "gist_trgm_ops", Params: []struct{ N, V string }{{"siglen", "32"}}}}}))
+		// EXPRESSION key parts carrying the same attributes as column parts
+		t2.AddIndexes(
+			schema.NewIndex("i_expr_nulls_first").AddParts(&schema.IndexPart{X: &schema.RawExpr{X: "(lower(b))"}, Attrs: []schema.Attr{&postgres.IndexColumnProperty{NullsFirst: true}}}),
+			schema.NewIndex("i_expr_desc_nulls_last").AddParts(&schema.IndexPart{X: &schema.RawExpr{X: "((c % 10))"}, Desc: true, Attrs: []schema.Attr{&postgres.IndexColumnProperty{NullsLast: true}}}, &schema.IndexPart{C: a}),
+			schema.NewIndex("i_expr_opclass").AddParts(&schema.IndexPart{X: &schema.RawExpr{X: "(lower(b))"}, Attrs: []schema.Attr{&postgres.IndexOpClass{Name: "text_pattern_ops"}}}),
+		)
 		t2.AddIndexes(schema.NewIndex("i_opclass").AddParts(&schema.IndexPart{C: b, Attrs: []schema.Attr{&postgres.IndexOpClass{Name: "text_pattern_ops"}}}))
 	default:
 		t2.AddIndexes(schema.NewIndex("i_partial").AddColumns(c).AddAttrs(&sqlite.IndexPredicate{P: "c > 0"}))
@@ -578,6 +584,14 @@ func c15AttrTables(d *dialectAPI, r *hx.Rand) []*schema.Table {
 		t2.AddForeignKeys(schema.NewForeignKey(fmt.Sprintf("fk_%d", i)).SetTable(t2).AddColumns(p).SetRefTable(t2).AddRefColumns(a).SetOnDelete(act).SetOnUpdate(c02Actions[(i+1)%4]))
 	}
 	out = append(out, t2)
+	if d.name == "mysql" {
+		// a primary key whose parts carry attributes (a prefix length, a direction)
+		tp := schema.NewTable("attrs_pk")
+		pa, pb := schema.NewColumn("name").SetType(&schema.StringType{T: "varchar", Size: 255}), schema.NewColumn("id").SetType(intT())
+		tp.AddColumns(pa, pb)
+		tp.SetPrimaryKey(schema.NewPrimaryKey().AddParts(&schema.IndexPart{C: pa, Attrs: []schema.Attr{&mysql.SubPart{Len: 10}}}, &schema.IndexPart{C: pb, Desc: true}))
+		out = append(out, tp)
+	}
 	// auto increment / identity / generated / on update / charset
 	t3 := schema.NewTable("attrs_special")
 	k := schema.NewColumn("k")
